@@ -110,8 +110,15 @@ static RunOut run(Kind k, int L, int M, int mul, const arr_real* h, const std::v
         auto o = make(k, L, M, mul, h);
         size_t pos = 0;
         const size_t F = frame > 0 ? (size_t)frame : std::max<size_t>(x.size(), 1);
+        // frame < 0: mixed framing pattern -frame (frame lengths in units of M, cycled; 0 = empty frame)
+        static const std::vector<std::vector<int>> PAT = {{}, {1, 3, 2}, {4, 1, 1, 2}, {2, 0, 3, 0, 1}};
+        size_t step = 0;
         do {
-            const size_t n = std::min(F, x.size() - pos);
+            size_t n = std::min(F, x.size() - pos);
+            if (frame < 0) {
+                const auto& pt = PAT[(size_t)(-frame)];
+                n = std::min((size_t)pt[step++ % pt.size()] * (size_t)M, x.size() - pos);
+            }
             arr_real in((int)n);
             for (size_t i = 0; i < n; ++i) in[(int)i] = x[pos + i];
             arr_real out = o->process(in);
@@ -149,6 +156,8 @@ static arr_real to_arr(const std::vector<double>& v) {
 }
 
 // ------------------------------------------------------------------------------------------------ one configuration
+static bool g_deep = false;   // thorough tier: more framings per configuration (frames M..8M, three mixed patterns incl. empty frames)
+
 static void chain_case(Ctx& ctx, Kind kind, int L, int M, int mul, const std::string& hk, int nh, int j, bool light) {
     const char* site = kind == INTERP ? "FIRInterpolator::process"
                        : kind == DECIM ? "FIRDecimator::process"
@@ -217,15 +226,19 @@ static void chain_case(Ctx& ctx, Kind kind, int L, int M, int mul, const std::st
         prepare(lt, c);
         const double tol = 1e-12 * (double)lt.wmax;
         std::vector<int> frames = {0};
-        if (lt.name == "imp") frames.push_back(M);
-        else
-            for (int f = 1; f <= 6; ++f) frames.push_back(f * M);
+        if (lt.name == "imp") {
+            frames.push_back(M);
+            if (g_deep) frames.push_back(2 * M), frames.push_back(-1);
+        } else {
+            for (int f = 1; f <= (g_deep ? 8 : 6); ++f) frames.push_back(f * M);
+            if (g_deep) frames.push_back(-1), frames.push_back(-2), frames.push_back(-3);
+        }
         for (int fr : frames) {
             RunOut r = run(kind, L, M, mul, hp, lt.x, fr);
             ++runs;
             const P det = P().kv("in", lt.name).kv("pos", lt.pos).kv("frame", fr);
             if (!r.err.empty()) {
-                ctx.fail(site, r.err, fmt("%ld samples (len*L/M) per call, no exception", (long)(fr ? fr : nin) * L / M),
+                ctx.fail(site, r.err, fmt("len*L/M samples per call (framing code %d), no exception", fr),
                          P(det).kv("what", r.threw ? "throw" : "size"));
                 failed = true;
                 break;
@@ -785,7 +798,9 @@ int main(int argc, char** argv) {
     Ctx ctx;
     ctx.parse(argc, argv, "C08");
     const bool T = ctx.thorough();
-    const int B = T ? 16 : 8;
+    const int B = T ? 24 : 8;     // class-level box: reduced L/M with L, M <= B
+    const int BR = T ? 32 : 8;    // resample() grid: p, q <= BR
+    g_deep = T;
 
     struct Conf {
         Kind k;
@@ -805,6 +820,13 @@ int main(int argc, char** argv) {
     for (auto& a : audio) {
         confs.push_back({RATE, a[0], a[1], 1, true});
         confs.push_back({RESAMPLER, a[0], a[1], 300, true});   // FIRResampler(48000, 132300) style unreduced arguments
+    }
+    if (T) {
+        const int audio2[][2] = {{80, 147}, {147, 80}, {147, 320}, {640, 147}};
+        for (auto& a : audio2) {
+            confs.push_back({RATE, a[0], a[1], 1, true});
+            confs.push_back({RESAMPLER, a[0], a[1], 100, true});
+        }
     }
     for (int L : {147, 160, 320, 441}) confs.push_back({INTERP, L, 1, 1, true});
     for (int M : {147, 160, 441}) confs.push_back({DECIM, 1, M, 1, true});
@@ -837,7 +859,13 @@ int main(int argc, char** argv) {
         for (int n : lens) {
             std::vector<int> js;
             if (!cf.audio) {
-                for (int j = 0; j <= (n - 1) / 2; ++j) js.push_back(j);
+                if (mx > 16 && n > 4 * mx + 1) {
+                    // box 17..24: the very long h only with 5 impulse pairs (+ dense)
+                    std::set<int> sj = {0, 1, 7, (n - 1) / 2 - 1, (n - 1) / 2};
+                    js.assign(sj.begin(), sj.end());
+                } else {
+                    for (int j = 0; j <= (n - 1) / 2; ++j) js.push_back(j);
+                }
             } else {
                 std::set<int> s = {0, 1, 7 % ((n + 1) / 2), (n - 1) / 2 - 1, (n - 1) / 2};
                 for (int j : s)
@@ -869,9 +897,10 @@ int main(int argc, char** argv) {
                           {INTERP, 3, 1, true},    {DECIM, 1, 3, true},      {RESAMPLER, 3, 2, true}, {RESAMPLER, 2, 3, false},
                           {RESAMPLER, 3, 1, false}, {RESAMPLER, 1, 3, false}, {RATE, 7, 5, false},     {RATE, 16, 15, false}};
         for (auto& lc : lcs)
-            for (int N0 : {70000, 140000})
+            for (int N0 : {70000, 140000, 270000})
                 for (int hv = 0; hv < 2; ++hv) {
                     if (!T && (!lc.quick || N0 != 70000 || hv != 0)) continue;
+                    if (N0 == 270000 && !lc.quick) continue;   // beyond 2^18: the five basic forms only
                     const int mx = std::max(lc.L, lc.M), nh = 2 * mx + 3;
                     if (!ctx.take("chain.long", P().kv("kind", KNAME[lc.k]).kv("L", lc.L).kv("M", lc.M).kv("h", hv ? "dense" : "default").kv("nh", hv ? nh : 0).kv("frame", N0)))
                         continue;
@@ -891,21 +920,25 @@ int main(int argc, char** argv) {
     }
 
     // ---- resample(): length / no exception / identity for every (p, q, n)
-    for (int p = 1; p <= B; ++p)
-        for (int q = 1; q <= B; ++q)
+    for (int p = 1; p <= BR; ++p)
+        for (int q = 1; q <= BR; ++q)
             for (int n = 1; n <= 12; ++n) {
                 if (!ctx.take("resample.len", P().kv("p", p).kv("q", q).kv("n", n).kv("path", path_of(p, q)))) continue;
                 len_block(ctx, "n", 0, p, q, n, 0, nullptr);
-                if (n == 1 || n == 10) {
+                if (n == 1 || n == 10 || T) {
                     len_block(ctx, "n,beta=0", 1, p, q, n, 0.0, nullptr);
                     len_block(ctx, "n,beta=9", 1, p, q, n, 9.0, nullptr);
+                }
+                if (T) {
+                    len_block(ctx, "n,beta=2.5", 1, p, q, n, 2.5, nullptr);
+                    len_block(ctx, "n,beta=14", 1, p, q, n, 14.0, nullptr);
                 }
                 ctx.note(fmt("resample path %s", path_of(p, q)));
                 if (p != q) ctx.nontrivial();
             }
     // ---- resample(x, p, q, h) with custom symmetric h
-    for (int p = 1; p <= B; ++p)
-        for (int q = 1; q <= B; ++q) {
+    for (int p = 1; p <= BR; ++p)
+        for (int q = 1; q <= BR; ++q) {
             const int g = std::gcd(p, q), mx = std::max(p / g, q / g);
             std::vector<int> hl;
             for (int n = 2; n <= 2 * mx + 3; ++n) hl.push_back(n);
@@ -920,7 +953,20 @@ int main(int argc, char** argv) {
         }
     // ---- band limitation of the default designs (M > L: part of the old band must be removed)
     {
-        const int ratios[][2] = {{2, 3}, {2, 5}, {3, 7}, {3, 8}, {5, 16}, {160, 441}, {147, 320}, {1, 2}, {1, 3}, {1, 8}};
+        std::vector<std::array<int, 2>> ratios = {{2, 3}, {2, 5}, {3, 7}, {3, 8}, {5, 16}, {160, 441}, {147, 320}, {1, 2}, {1, 3}, {1, 8}};
+        if (T) {
+            // every reduced L/M in [0.3, 2/3] with M <= 16 and every 1/M (the stop tone is at least as far from the cut-off as for
+            // 2/3).  Below 0.3 with L > 1 the default design (2*n*L taps = 2n input samples whatever M is) is too short for the
+            // band: the in-band gain droops by 5-7 % (2/11, 2/13, 2/15, 3/16); that is a design limitation outside the bound taken
+            // from the requested ratios (smallest 5/16), not an indexing property, and is therefore not enumerated.
+            ratios.clear();
+            for (int M = 2; M <= 16; ++M)
+                for (int L = 1; 3 * L <= 2 * M; ++L)
+                    if (std::gcd(L, M) == 1 && (L == 1 || 10 * L >= 3 * M)) ratios.push_back({L, M});
+            ratios.push_back({160, 441});
+            ratios.push_back({147, 320});
+            ratios.push_back({80, 147});
+        }
         const char* dn[] = {"resample(x,p,q)", "resample(x,p,q,12,9.0)", "FIRResampler(L,M)", "FIRRateConverter(L,M)/FIRDecimator(M)"};
         // stop-band bound per design: 10 x the largest leakage measured on the unchanged tree (see propdef)
         const double stop_bound[] = {8.5e-3, 9.2e-2, 9.1e-2, 9.1e-2};
@@ -948,8 +994,8 @@ int main(int argc, char** argv) {
     // ---- alignment
     {
         std::vector<std::array<int, 2>> pq;
-        for (int p = 1; p <= B; ++p)
-            for (int q = 1; q <= B; ++q) pq.push_back({p, q});
+        for (int p = 1; p <= BR; ++p)
+            for (int q = 1; q <= BR; ++q) pq.push_back({p, q});
         for (auto& a : audio) pq.push_back({a[0], a[1]});
         pq.push_back({48000, 44100});
         pq.push_back({16000, 44100});
